@@ -184,8 +184,8 @@ impl VisitMut for OperationTransformVisitor<'_> {
     }
 
     fn visit_mut_if_stmt(&mut self, if_stmt: &mut IfStmt) {
-        if_stmt.test.visit_mut_children_with(self);
-        if_stmt.cons.visit_mut_children_with(self);
+        // the test itself and both branches (braced or not) may hold operations to instrument
+        if_stmt.visit_mut_children_with(self);
     }
 
     // cancel visit child blocks
